@@ -52,8 +52,8 @@ def configs(tier):
                 if fam in deep:
                     if tier == 'quick':
                         out.append((fam, kind, impl, (2, 2), 5, 1, 20 if c else 60))
-                        out.append((fam, kind, impl, (2, 2), 5 if (c and kind == 'BTree') else 4, 2,
-                                    200 if (c and kind == 'BTree') else 30))
+                        big = c and kind == 'BTree' and fam in ('OO', 'IF', 'fs', 'QL')
+                        out.append((fam, kind, impl, (2, 2), 5 if big else 4, 2, 200 if big else 30))
                         if c:
                             out.append((fam, kind, impl, (3, 2), 5, 1, 5))
                             out.append((fam, kind, impl, (2, 3), 5, 1, 5))
@@ -162,7 +162,10 @@ def txn_alphabet(ctx, keys, vals, L):
         base.append(('ixor', 'list', tuple(keys[::2])))
     txns = [(op,) for op in base]
     if L >= 2:
-        txns += [(a, b) for a in base for b in base]
+        # second operation from the slim alphabet (+ one multi-key update): every entry point is
+        # a first operation, every structural change a second one
+        second = S.slim_alphabet(ctx, keys, vals) + [base[len(S.slim_alphabet(ctx, keys, vals))]]
+        txns += [(a, b) for a in base for b in second]
     if L >= 3:
         slim = S.slim_alphabet(ctx, keys, vals, extra=False)
         txns += [(a, b, c) for a in slim for b in slim for c in slim]
@@ -321,6 +324,9 @@ def job(fam, kind, impl, sizes, n, L):
         for ops, expand in [(t, True) for t in txns] + [(t, False) for t in extra]:
             for action in ('commit', 'abort'):
                 if action == 'abort' and not expand:
+                    continue
+                if action == 'abort' and len(ops) >= 2 and n >= 5 and not isinstance(L, str):
+                    # aborts of multi-operation transactions are enumerated on the N=4 space
                     continue
                 slot.set(('C04', fam, kind, impl, sizes, hist, ops, action))
                 w = rebuild(hist)
